@@ -7,7 +7,8 @@
     user code, all supervision decisions, all hook outcomes and all schedules.
     Derived notions: Actor/SpecLife.v.  Statements only; proofs in Actor/ProofsLife*.v. *)
 From Coq Require Import List NArith ZArith Bool.
-From Vivid Require Import Base.Tm Actor.Core Actor.CoreRun Actor.SpecLife Actor.ProofsLife Actor.ProofsLifeInv Actor.ProofsLifeEx.
+From Vivid Require Import Base.Tm Actor.Core Actor.CoreRun Actor.SpecLife Actor.ProofsLife Actor.ProofsLifeInv Actor.ProofsLifeSum
+  Actor.ProofsLifePhase Actor.ProofsLifeGen Actor.ProofsLifeTree Actor.ProofsLifeLog Actor.ProofsLifeEx.
 Import ListNotations.
 Local Open Scope N_scope.
 
@@ -150,3 +151,93 @@ Proof. exact (exec1_ICheckMark_marks s t held x). Qed.
 Theorem C05_other_killed_is_not_own s a x who :
   get s a = Some x -> ref_eq s who (RObj a) = false -> who <> RObj a.
 Proof. exact (other_killed_not_own s a x who). Qed.
+
+(** ============================ (b) nothing after the own OnKilled ============================ *)
+
+(** [seen_of a (olog s)]: the messages actor a's behaviour has seen so far, in order (Actor/SpecLife.v).
+    For every actor but the guard (the root has no behaviour), in every reachable state: whatever the behaviour sees
+    directly after its own OnKilled is the OnLaunch of a restart ... *)
+Theorem C05_nothing_after_own_killed s a pre m post :
+  reachable s -> a <> 0%nat -> seen_of a (olog s) = pre ++ MKilled (RObj a) :: m :: post -> m = MLaunch.
+Proof. exact (nothing_after_own_killed s a pre m post). Qed.
+
+(** ... and as long as the own OnKilled is the last thing it saw, the actor is Killed and either a zombie (whose
+    behaviour is never called, [C05_zombie_sees_nothing]) or has no behaviour call pending at all - or, after a
+    successful restart, the next significant pending instruction is the OnLaunch call.  A Killed non-zombie
+    context handles nothing any more ([C05_killed_dead_letters]), so without a restart nothing follows at all *)
+Theorem C05_after_own_killed_state s a pre :
+  reachable s -> a <> 0%nat -> seen_of a (olog s) = pre ++ [MKilled (RObj a)] ->
+  exists x, get s a = Some x /\
+    ((a_state x = Killed /\ (a_zombie x = true \/ forallb (fun i => negb (is_beh i)) (a_pend x) = true)) \/
+     (a_zombie x = false /\ exists ac r, filter sig (a_pend x) = [IBeh MLaunch ac r; IEndHandler])).
+Proof. exact (after_own_killed_state s a pre). Qed.
+
+Theorem C05_killed_dead_letters s a x e :
+  a_state x = Killed -> a_zombie x = false ->
+  dispatch s a x e =
+    match a_parent x with
+    | None => (add_ghost s (ODropped (e_msg e)), [IEndHandler])
+    | Some _ => (s, [IEnqMb 0 {| e_sys := false; e_sender := root_ref; e_msg := MDeadLetter (e_sys e) (e_msg e) |}; IEnqDone; IEndHandler])
+    end.
+Proof. exact (dispatch_dead s a x e). Qed.
+
+(** ============================ (e) OnLaunch first ============================ *)
+
+(** "the first message every actor sees is OnLaunch" is FALSE of the model and of the code (known finding
+    C05-spawn-race-first-message): ActorOf registers the path, then enqueues OnLaunch (two mailbox operations);
+    a message sent through a parsed reference in between is handled first.  Witness: caller 0 spawns /1, caller 1
+    tells /1 (by path) the user message 7 before caller 0's OnLaunch is enqueued. *)
+Theorem C05_first_is_launch_refuted :
+  exists scs evs a m rest,
+    let s := run_events evs (init_with scs) in
+    err s = false /\ seen_of a (olog s) = m :: rest /\ m <> MLaunch.
+Proof. exact first_is_launch_refuted. Qed.
+
+(** ============================ examples ============================ *)
+
+(** a supervised restart (one-for-one, decision Restart, provider configured, all hooks succeed): the child /1/1
+    (context 2) sees OnLaunch, the failing user message, OnKill, its own OnKilled, and then - same context, new
+    instance 1, behaviour stack reset (mode 0 although it had become 9) - OnLaunch; nobody else sees a second OnLaunch *)
+Example C05_ex_restart :
+  err rs_final = false /\
+  seen_full 2 (olog rs_final) =
+    [(0, 0, MLaunch); (0, 0, MUser 5 [ABecome 9 true; APanic]); (0, 9, MKill (RObj 2) false); (0, 9, MKilled (RObj 2)); (1, 0, MLaunch)] /\
+  seen_of 1 (olog rs_final) = [MLaunch] /\
+  (exists x, get rs_final 2 = Some x /\ a_state x = Running /\ a_modes x = [0] /\ a_inst x = 1 /\ a_gen x = 0).
+Proof. vm_compute. repeat split. eexists. repeat split. Qed.
+
+(** the same with a failing OnRestarted: the child ends as a zombie, sees nothing after its own OnKilled *)
+Example C05_ex_restart_failed :
+  err rz_final = false /\
+  seen_of 2 (olog rz_final) = [MLaunch; MUser 5 [APanic]; MKill (RObj 2) false; MKilled (RObj 2)] /\
+  (exists x, get rz_final 2 = Some x /\ a_state x = Killed /\ a_zombie x = true).
+Proof. vm_compute. repeat split. eexists. repeat split. Qed.
+
+(** hypotheses of the one-step theorems are satisfiable: a prelaunch failure in the initial state *)
+Example C05_ex_prelaunch_fail :
+  let s := init_with [[]] in
+  exists x, get s (self_of (TX 0)) = Some x /\ a_state x <> Killed /\
+    fst (exec1 s (TX 0) [] (IAct (ASpawn (Spec 1 [] [] [] 0 [] false [] false)))) = add_obs s (OSpawn 0 1 2).
+Proof. cbv zeta. eexists. split; [reflexivity|]. split; [discriminate|reflexivity]. Qed.
+
+(** a reachable state in which an actor's last seen message is its own OnKilled (the killed tree of C06) *)
+Example C05_ex_after_own_killed :
+  reachable tree_final /\ seen_of 2 (olog tree_final) = [MLaunch; MKill (RObj 1) false] ++ [MKilled (RObj 2)].
+Proof. split; [exists tree_scripts, tree_events; split; [reflexivity|vm_compute; reflexivity]|vm_compute; reflexivity]. Qed.
+
+Print Assumptions C05_prelaunch_fail.
+Print Assumptions C05_prelaunch_fail_creates_nothing.
+Print Assumptions C05_spawn_ok_shape.
+Print Assumptions C05_restart_starts_with_launch.
+Print Assumptions C05_behaviour_call_logged.
+Print Assumptions C05_publish_sends_events_only.
+Print Assumptions C05_restart_failed_is_zombie.
+Print Assumptions C05_zombie_sees_nothing.
+Print Assumptions C05_kill_before_killed.
+Print Assumptions C05_onkilled_self_checks.
+Print Assumptions C05_own_killed_from_mark.
+Print Assumptions C05_other_killed_is_not_own.
+Print Assumptions C05_nothing_after_own_killed.
+Print Assumptions C05_after_own_killed_state.
+Print Assumptions C05_killed_dead_letters.
+Print Assumptions C05_first_is_launch_refuted.
